@@ -299,7 +299,12 @@ impl Analyzable for StakeDelegationCertificate {
         let pool = self.pool.analyze(parent.clone());
         let stake = self.stake.analyze(parent.clone());
 
-        pool + stake
+        // the block parses, but nothing past the analyzer knows what to do with it
+        let unsupported = crate::analyzing::Error::NotSupported(
+            "cardano::stake_delegation_certificate".to_string(),
+        );
+
+        pool + stake + unsupported.into()
     }
 
     fn is_resolved(&self) -> bool {
@@ -314,7 +319,9 @@ impl IntoLower for StakeDelegationCertificate {
         &self,
         _ctx: &crate::lowering::Context,
     ) -> Result<Self::Output, crate::lowering::Error> {
-        todo!("StakeDelegationCertificate lowering not implemented")
+        Err(crate::lowering::Error::InvalidAst(
+            "StakeDelegationCertificate lowering not implemented".to_string(),
+        ))
     }
 }
 
